@@ -36,7 +36,8 @@ TOL = 1e-6
 KCT = ('kopf.dev', 'v1', 'kopfclusterthings')
 NS_ALL = ['default', 'ns-a', 'ns-b', 'other']
 K3 = ('third.dev', 'v1', 'kopfthirds')       # served through its short name only, which its CRD may lose and regain
-BUSINESS = {KEX: 'kopfexamples', KCT: 'kopfclusterthings', K3: 'kopfthirds'}
+K3B = ('third.dev', 'v2', 'kopfthirds')      # ... and a second version of it that is rolled out (preferred) and rolled back at run time
+BUSINESS = {KEX: 'kopfexamples', KCT: 'kopfclusterthings', K3: 'kopfthirds', K3B: 'kopfthirds'}
 
 
 def served_ns(mode, ns):
@@ -98,7 +99,10 @@ def scenarios(draw):
         # the CRD of the third kind is modified: it loses / regains the short name by which the handler names it (the resource
         # goes on existing, but is no longer / is again what the handler's selector means)
         a_cluster = st.one_of(a_cluster, st.builds(lambda on, dt: {'a': 'shortname', 'on': on, 'dt': dt}, st.booleans(), dts),
-                              st.builds(lambda on, dt: {'a': 'shortname', 'on': on, 'dt': dt}, st.booleans(), dts))
+                              st.builds(lambda on, dt: {'a': 'shortname', 'on': on, 'dt': dt}, st.booleans(), dts),
+                              # a version roll-out: v2 is added to the CRD and becomes the preferred one while v1 goes on being served
+                              # (the handler names no version: it means the preferred one) - and the roll-back
+                              st.builds(lambda on, dt: {'a': 'version_roll', 'on': on, 'dt': dt}, st.booleans(), dts))
     a_misc = st.one_of(st.builds(lambda dt: {'a': 'advance', 'dt': dt}, st.sampled_from([1.0, 3.0, 8.0])), st.just({'a': 'checkpoint'}))
     choices = [a_obj, a_obj, a_obj, a_pair, a_stream, a_stream, a_cluster, a_misc]
     if peering:
@@ -229,7 +233,26 @@ class Run:
             eff = bool(rd.shortnames) != act['on']
             if eff:
                 rd.shortnames = ('kth',) if act['on'] else ()
+                if K3B in c.resdefs:
+                    c.resdefs[K3B].shortnames = rd.shortnames
                 c.edit(CRDS, None, 'kopfthirds.third.dev', lambda b: b['spec']['names'].update(shortNames=list(rd.shortnames)))
+        elif a == 'version_roll':
+            eff = (K3B in c.resdefs) != act['on']
+            if eff:
+                rd = c.resdefs[K3]
+                if act['on']:
+                    c.add_resource(ResDef(*K3B, 'KopfThird', namespaced=False, shortnames=rd.shortnames), announce=False)
+                    c.preferred['third.dev'] = 'v2'
+                    c.create(K3B, None, 't0', {'spec': {'f': 0}})
+                else:
+                    c.preferred.pop('third.dev', None)
+                    for w in list(c.watches):
+                        if w.rkey == K3B:
+                            w.end()
+                    for k in [k for k in c.objects if k[0] == K3B]:
+                        del c.objects[k]
+                    c.resdefs.pop(K3B, None)
+                c.edit(CRDS, None, 'kopfthirds.third.dev', lambda b: b['spec'].update(versions=['v1', 'v2'] if act['on'] else ['v1']))
         elif a == 'crd_add':
             eff = KCT not in c.resdefs
             if eff:
@@ -267,6 +290,7 @@ class Run:
             'namespaces': sorted(k[2] for k in self.c.objects if k[0] == NAMESPACES),
             'crd': KCT in self.c.resdefs,
             'third': bool(self.sc.get('third')) and bool(self.c.resdefs[K3].shortnames),
+            'third_v2': K3B in self.c.resdefs,
             'pending_faults': [f.spec for f in self.c.faults if f.spec.get('do') in ('status', 'exc') and f.fired < f.spec.get('count', 1)],
         })
 
@@ -400,6 +424,8 @@ def check(run, res):
     if last['alive'] and not last['paused']:
         for (rkey, ns, name), body in c.objects.items():
             if rkey in BUSINESS and (ns is None or served_ns(mode, ns)):
+                if rkey in (K3, K3B) and not (last.get('third') and rkey == (K3B if last.get('third_v2') else K3)):
+                    continue      # that version of the third kind is not what the handler's selector means at the end
                 if (rkey, ns if (mode == 'namespaced' and rkey == KEX) else None) in fatal:
                     continue
                 rv = body['metadata']['resourceVersion']
@@ -462,7 +488,7 @@ def check(run, res):
             if cp['crd']:
                 want.add((KCT, None))
             if cp.get('third'):
-                want.add((K3, None))
+                want.add((K3B if cp.get('third_v2') else K3, None))
         got = {k for k in pairs if k[0] in BUSINESS}
         lingering = {k for k in got - want if any(open_within(w, a, a) for w in pairs[k]) and any(open_within(w, b, b) for w in pairs[k])}
         missing = want - got
@@ -484,6 +510,8 @@ def check(run, res):
             readded = True
     if fault_between:
         res.label('fault-between-changes-of-one-object')
+    if any(act['a'] == 'version_roll' and eff for t, act, eff in run.performed):
+        res.label('crd-version-rolled-out-or-back')
     if any(act['a'] == 'shortname' and eff for t, act, eff in run.performed):
         res.label('crd-modified-short-name-lost-or-regained')
     if readded:
